@@ -117,12 +117,16 @@ def run_check(prop: str, tier: str, t0: float) -> int:
                 # an exception that comes out of the code under test while a component is being set up or driven (a NameError in a
                 # helper every scheduler calls, say) is not a defect of the harness: the component's correspondence no longer checks
                 # (the formatted chain: an exception that crossed a thread or process pool carries its origin as text only)
+                if isinstance(e, Infra):
+                    raise
                 text = "".join(traceback.format_exception(type(e), e, e.__traceback__))
                 where = [l.strip() for l in text.splitlines() if l.strip().startswith("File ") and str(common.SRC) in l]
-                if not where:
-                    raise
+                # ... and an exception in the harness's own code while it digests what the code under test returned (a value of
+                # a shape the unchanged code never produces) means the same: the component could not be driven to its end, its
+                # correspondence is not shown.  (On the unchanged tree neither happens: every component runs to completion.)
                 broken.append({"kind": "component-crashed", "component": getattr(comp, "__qualname__", str(comp)).split(".")[0],
-                               "detail": f"{type(e).__name__}: {e} raised in the code under test ({where[-1][:160]})",
+                               "detail": (f"{type(e).__name__}: {e} raised in the code under test ({where[-1][:160]})" if where else
+                                          f"{type(e).__name__}: {e} raised while the harness processed what the code under test returned"),
                                "traceback": text[-2500:]})
     for r in results:
         for d in r.disagreements:
@@ -147,7 +151,7 @@ def run_check(prop: str, tier: str, t0: float) -> int:
         except Hang:
             broken.append({"kind": "search-hung", "detail": f"the failing-input search did not return within {limit} s"})
         except Exception as e:  # noqa: BLE001
-            if str(common.SRC) not in "".join(traceback.format_exception(type(e), e, e.__traceback__)):
+            if isinstance(e, Infra):
                 raise
             broken.append({"kind": "search-crashed", "detail": f"{type(e).__name__}: {e} raised in the code under test during the failing-input search",
                            "traceback": "".join(traceback.format_exception(type(e), e, e.__traceback__))[-2500:]})
